@@ -108,7 +108,13 @@ fn abs_map(c: &mut Cur, wild_ok: bool) -> AbsMap {
   AbsMap::new(segs, nsrc, nnames, flags & 1 != 0, (flags >> 1) % 4, (flags >> 3) % 8, (flags >> 6) % 4, wild_ok && c.u8() % 2 == 0)
 }
 
+/// `depth` nested ConcatSources at most; single-child wrappers (ReplaceSource, CachedSource, Box) cost half a level, so
+/// chains of up to `2 * depth` wrappers of differing kinds are reachable from bytes.
 pub fn spec(c: &mut Cur, depth: u32, cfg: GenCfg) -> Spec {
+  spec_b(c, depth * 2, cfg)
+}
+
+fn spec_b(c: &mut Cur, depth: u32, cfg: GenCfg) -> Spec {
   let k = if depth == 0 { c.below(8) } else { c.below(14) };
   // node kinds the configuration excludes fall back to an OriginalSource / a raw leaf / a Box
   let k = match k {
@@ -159,10 +165,10 @@ pub fn spec(c: &mut Cur, depth: u32, cfg: GenCfg) -> Spec {
     8 | 9 => {
       let n = c.below(cfg.max_children + 1);
       let how = c.u8() % 5;
-      Spec::Concat { how, children: (0..n).map(|_| spec(c, depth - 1, cfg)).collect() }
+      Spec::Concat { how, children: (0..n).map(|_| spec_b(c, depth.saturating_sub(2), cfg)).collect() }
     }
     10 | 11 => {
-      let inner = spec(c, depth - 1, cfg);
+      let inner = spec_b(c, depth - 1, cfg);
       let t = model_text(&inner);
       let np = 1 + c.below(5);
       let pool: Vec<u16> = (0..np).map(|_| c.u16()).collect();
@@ -177,8 +183,8 @@ pub fn spec(c: &mut Cur, depth: u32, cfg: GenCfg) -> Spec {
       let repls = concretize_repls(&t, &pool, &abs, cfg.huge_positions);
       Spec::Replace { inner: Box::new(inner), repls }
     }
-    12 => Spec::Cached(Box::new(spec(c, depth - 1, cfg))),
-    _ => Spec::Boxed(Box::new(spec(c, depth - 1, cfg))),
+    12 => Spec::Cached(Box::new(spec_b(c, depth - 1, cfg))),
+    _ => Spec::Boxed(Box::new(spec_b(c, depth - 1, cfg))),
   }
 }
 
